@@ -55,7 +55,9 @@ class KTrajectoryPulseq(KTrajectoryCalculator):
         n_k0 = int(n_samples.item())
 
         def reshape_pulseq_traj(k_traj: torch.Tensor, encoding_size: int):
-            k_traj *= encoding_size / (2 * torch.max(torch.abs(k_traj)))
+            max_abs = torch.max(torch.abs(k_traj))
+            if max_abs > 0:  # a direction without gradients stays zero (instead of 0/0 = NaN)
+                k_traj = k_traj * (encoding_size / (2 * max_abs))
             return rearrange(k_traj, '(other k0) -> other k0', k0=n_k0)
 
         # rearrange k-space trajectory to match MRpro convention
